@@ -7,4 +7,6 @@ mkdir -p bin evidence replays .ov
 for eng in kexplore inputx storex; do
   vbuild $eng || exit 1
 done
+. /verif/threx.sh
+threx_build || exit 1
 echo "setup ok"
